@@ -108,8 +108,43 @@ func runPO(ld *Loaded, r *sym.Run, st *sym.State, j Job, opt Options, scen int) 
 		queries = append(queries, sym.POQuery{Name: "quiescence", Quiescence: true, Goal: sym.AssertGoal(opt.Prop, true)})
 		queries = append(queries, sym.POQuery{Name: "witness:quiescent", Quiescence: true, Goal: func(po *sym.PO) *smt.Term { return smt.True }})
 	}
+	if opt.Prop == "C19" {
+		// the race check rides on the host harness: only the witness and the race query
+		queries = []sym.POQuery{
+			{Name: "witness:end", Goal: sym.ReachAllGoal()},
+			{Name: "race", Race: true},
+		}
+	}
 	kf := loadKnown()
 	solveQ := func(q sym.POQuery) sym.POResult {
+		if q.Race {
+			excl := map[string]bool{}
+			var known []string
+			for round := 0; round < 12; round++ {
+				qq := q
+				qq.RaceExcl = excl
+				res := po.Solve(qq, to)
+				if res.Res != smt.Sat {
+					res.KnownHit = known
+					return res
+				}
+				allKnown := len(res.Races) > 0
+				for _, rc := range res.Races {
+					v := sym.Violation{Label: "C19/data-race", Msg: rc.Key(), Pos: rc.Key(), History: poTraceText(res)}
+					if k := matchKnown(kf, opt.Prop, j.Name(), v); k != nil {
+						excl[rc.Key()] = true
+						known = append(known, k.What)
+					} else {
+						allKnown = false
+					}
+				}
+				if !allKnown {
+					res.KnownHit = known
+					return res
+				}
+			}
+			return sym.POResult{Name: q.Name, Res: smt.Unknown, KnownHit: known}
+		}
 		// assertion queries: when every failure of the model is a listed known finding, those
 		// assertion events are excluded and the query is posed again, so that a different
 		// violation hiding behind a known one is still found
